@@ -344,8 +344,12 @@ var pkgRe = regexp.MustCompile(`\b(p\d{5})\b`)
 // BuildUnits prints each grammar for each flag set, runs pigeon, compiles the packages in
 // batches (all in parallel). Units that pigeon rejects or that do not compile are marked.
 func (c *Ctx) BuildUnits(gs []*gast.Grammar, flagSets [][]string, race bool, isLR func(i int) bool) *Built {
+	return c.buildUnitsBase(gs, flagSets, race, isLR, 0)
+}
+
+func (c *Ctx) buildUnitsBase(gs []*gast.Grammar, flagSets [][]string, race bool, isLR func(i int) bool, base int) *Built {
 	bt := &Built{c: c}
-	n := 0
+	n := base
 	for gi, g := range gs {
 		for _, fs := range flagSets {
 			n++
